@@ -2,8 +2,11 @@
 //! (`IdRanges<T>` driven through `yrs::IdSet` and `yrs::IdMap<u8>`).
 //! See README.md.
 
+mod docs;
+mod ext;
 mod json;
 mod model;
+mod proto;
 mod search;
 mod sut;
 
@@ -79,11 +82,16 @@ fn cmd_search(args: &[String]) -> i32 {
         i += 1;
     }
     let target = target.unwrap_or_else(|| die(USAGE));
+    // targets outside the interval-set code (see ext.rs)
+    if let Some(parts) = ext::targets_for(&target) {
+        let deadline = max_seconds.map(|t| Instant::now() + Duration::from_secs_f64(t.max(0.0)));
+        return ext::cmd_search(&target, &parts, jobs, deadline);
+    }
     if universe < 1 || universe > MAX_UNIVERSE {
         die(&format!("--universe must be in 1..={}", MAX_UNIVERSE));
     }
     let groups = search::groups_for(&target)
-        .unwrap_or_else(|| die(&format!("unknown target {:?}; targets: {}", target, search::TARGETS)));
+        .unwrap_or_else(|| die(&format!("unknown target {:?}; targets: {} | {}", target, search::TARGETS, ext::TARGETS)));
     let mut s = Search {
         n: universe,
         seed,
@@ -156,6 +164,9 @@ fn cmd_replay(args: &[String]) -> i32 {
     }
     if j.get("op").is_none() {
         die("replay: the JSON carries no case (no \"op\" field)");
+    }
+    if ext::owns(&j) {
+        return ext::cmd_replay(&j).unwrap_or_else(|e| die(&format!("replay: {}", e)));
     }
     let case = Case::from_json(&j).unwrap_or_else(|e| die(&format!("replay: {}", e)));
     if let Err(e) = sut::validate(&case) {
